@@ -1,6 +1,7 @@
 import Bifrost.Model.Packets
 import Bifrost.Lemmas.Framing
 import Bifrost.Lemmas.Writers
+import Bifrost.Lemmas.PacketsEnd
 /-!
 C08 — Packet framing over byte streams preserves packets exactly
 (`rwc.PacketConn` and `stream_packet.Session`). Property theorems only.
@@ -173,6 +174,41 @@ example : writeSched [[[1, 2]], [[3], [4]]] [1, 0, 1] = [[3], [1, 2], [4]] ∧
 
 /-- Non-vacuity: two packets split across awkward chunk boundaries. -/
 example : rxPump 10 100 [[2, 0], [0, 0, 7], [8, 1, 0, 0], [0, 9]] = ([[7, 8], [9]], .eof) := by
+  decide
+
+/-! ### The read that ends the stream; calling again after an error -/
+
+/-- Whether the underlying reader reports its end by a read of its own or together with its
+final bytes (`n > 0, io.EOF`) changes nothing: the same packets are delivered, with the same
+terminal condition — all streams (also malformed), all chunkings. In particular a last packet
+whose bytes arrive with the EOF is delivered (`rx_frames`), a truncated one is not. -/
+theorem rx_end_mode_independent (max : Nat) (lastWithErr : Bool) (fuel : Nat) (cs : Reader) :
+    rxPumpE max lastWithErr fuel cs = rxPump max fuel cs ∧
+    recvMsgsE max lastWithErr fuel cs = recvMsgs max fuel cs :=
+  ⟨rxPumpE_eq max lastWithErr fuel cs, recvMsgsE_eq max lastWithErr fuel cs⟩
+
+/-- "Ends the connection": once a `Session.RecvMsg` call has returned an error (over-limit
+prefix, truncated frame, end of stream), EVERY later call returns an error and hands the caller no
+message — whatever follows the bad prefix on the stream, however many times the caller retries. -/
+theorem session_error_is_final (max : Nat) (s : Sess) (k : Nat)
+    (h : (recvMsg max s).1.isErr = true) :
+    ∀ x ∈ recvCalls max k (recvMsg max s).2, x.isErr = true :=
+  recvCalls_stuck max k _ (recvMsg_err_stuck max s h)
+
+/-- The messages `k` successive calls hand out — retries after errors included — are exactly the
+messages of the read loop that stops at the first error (`recvMsgs`, about which `session_frames`
+and `session_over_limit_stops` speak): nothing is ever delivered after the first error. -/
+theorem session_calls_deliver_recvMsgs (max k : Nat) (cs : Reader) (lastWithErr : Bool) :
+    (recvCalls max k ⟨cs, lastWithErr, false⟩).filterMap RecvRes.msg? = (recvMsgs max k cs).1 := by
+  rw [recvCalls_msgs, recvMsgsE_eq]
+
+/-- Non-vacuity: limit 8; an over-limit prefix (9) followed by bytes that look like two frames:
+every retry fails. A last message arriving together with EOF is delivered, then EOF for ever. -/
+example : recvCalls 8 4 ⟨[[9, 0, 0, 0, 2, 0, 0, 0, 7, 7, 1, 0, 0, 0, 5]], false, false⟩
+      = [.tooLarge, .tooLarge, .tooLarge, .tooLarge] ∧
+    recvCalls 8 3 ⟨[[1, 0, 0], [0, 5]], true, false⟩ = [.msg [5], .eof, .eof] ∧
+    recvCalls 8 2 ⟨[[2, 0, 0], [0, 5]], true, false⟩ = [.unexpectedEof, .eof] ∧
+    rxPumpE 8 true 9 [[1, 0, 0], [0, 5]] = ([[5]], .eof) := by
   decide
 
 end Bifrost.Props.C08
